@@ -524,3 +524,66 @@ def c06_multi_file_pointers(ka: List[int], kb: List[int], la: List[int], lb: Lis
     post: _ >= 0
     """
     return _multi_file(ka, kb, la, lb, swap)
+
+
+def _multi_file_idx(ka, kb, la, lb, swap):
+    """as _multi_file, but every file comes with an .idx (what indexGVF writes), loaded through
+    VariantRecordPoolOnDisk.load_index"""
+    from moPepGen.seqvar.VariantRecordPoolOnDisk import VariantRecordPoolOnDisk
+    files = []
+    uid = 0
+    for keys, lens in ((ka, la), (kb, lb)):
+        if lens[0] < 1:
+            return SKIP
+        lines = [_Line(lens[0], None)]
+        for i, k in enumerate(keys):
+            if not 0 <= k <= 1 or lens[i + 1] < 1:
+                return SKIP
+            lines.append(_Line(lens[i + 1], _Rec(KEYS[k], uid)))
+            uid += 1
+        files.append(_Handle(lines))
+    order = [1, 0] if swap else [0, 1]
+    pool = VariantRecordPoolOnDisk(gvf_files=['a.gvf', 'b.gvf'])
+    with patched((gvfindex.io, 'line_to_variant_record', lambda line: line.rec),
+                 (vpod.GVFMetadata, 'parse', lambda h: _Meta())):
+        idx_text = {}
+        for i in (0, 1):
+            ptrs = list(gvfindex.iterate_pointer(files[i], is_circ_rna=False))
+            idx_text[i] = ['# CHECKSUM=x\n'] + [p.to_line() + '\n' for p in ptrs]
+            files[i].pos = 0
+
+        def fake_open(path, mode='r'):
+            return _TextFile(idx_text[int(str(path)[-1])] if str(path).startswith('idx') else [])
+
+        with patched((vpod, 'open', fake_open)):
+            for i in order:
+                pool.load_index(f'idx{i}', f'gvf{i}', files[i])
+        got = {}
+        for key, ptrs in pool.pointers.items():
+            recs = []
+            for p in ptrs:
+                recs += p.load()
+            got[key] = sorted(r.uid for r in recs)
+    want = {}
+    uid = 0
+    for keys in (ka, kb):
+        for k in keys:
+            want.setdefault(KEYS[k], []).append(uid)
+            uid += 1
+    if got != want:
+        return -5
+    return OK
+
+
+@cond('C06', bounds='as c06_multi_file_pointers with every file indexed (.idx text written by the real to_line, read by '
+      'the real load_index), byte lengths < 10000', encodes=ENC_I + [
+      'moPepGen.seqvar.VariantRecordPoolOnDisk.VariantRecordPoolOnDisk.load_index'], codes=CODES_I,
+      tokens=True, stubs=['as c13_index_scan', 'open / GVFMetadata.parse -> in-memory'], timeout=400)
+def c06_multi_file_idx(ka: List[int], kb: List[int], la: List[int], lb: List[int], swap: bool) -> int:
+    """
+    pre: 1 <= len(ka) <= 2 and 1 <= len(kb) <= 2
+    pre: len(la) == 3 and len(lb) == 3
+    pre: all(1 <= x < 10000 for x in la) and all(1 <= x < 10000 for x in lb)
+    post: _ >= 0
+    """
+    return _multi_file_idx(ka, kb, la, lb, swap)
